@@ -193,10 +193,15 @@ def removePeers (w : World) : World :=
     established), the RIB. -/
 def decidePeer (prev : Option (List Route)) (n : Nbr) (p : Option PeerSt) (s : Option Sess) :
     PeerSt × Option Sess :=
-  let obj : NObj := { nbr := n, prev := prev }
   match p with
-  | none => ({ cur := obj, next := none, up := false, teardown := false }, none)      -- Peer(neighbor, self)
+  | none => ({ cur := { nbr := n, prev := prev }, next := none, up := false, teardown := false }, none)  -- Peer(neighbor, self)
   | some p =>
+    -- `Peer._replaced_routes` (/repo F106): the definition being replaced may never have reached the RIB (a
+    -- re-establishment is pending for it, or a reload is waiting for the loop top): the RIB still reflects the
+    -- one IT replaced, and the new definition inherits that link
+    let held := p.next.getD p.cur
+    let prev := match held.prev with | some x => some x | none => prev
+    let obj : NObj := { nbr := n, prev := prev }
     if !(p.cur.nbr.sameSession n) then
       ({ p with teardown := true, next := some obj }, none)                             -- reestablish
     else if p.up then
